@@ -1268,7 +1268,9 @@ func c13RunScens(t *testing.T, rec *vh.Rec, e *c13Env, scens []c13Scen, reduce b
 			}
 		}
 	}
-	rec.Extra("scenarios", len(scens))
+	if idx, _ := vh.Shard(); idx == 0 {
+		rec.Extra("scenarios", len(scens)) // vcheck sums numeric extras over the shards
+	}
 	rec.Extra("schedules", total)
 	rec.Extra("work_items", items)
 }
